@@ -45,6 +45,8 @@ class C15(Machine):
         sc["params"] = {"kind": kind, "prefix": 0 if kind in ("block", "scc") else rng.choice([0, 0, 1, 2, 3]), "p_attr": 0.2}
         if rng.random() < 0.3:
             sc["walk_seed"] = rng.randrange(1 << 30)
+        # how the solver fails in this history: RuntimeError (clingo error) or MemoryError (bad_alloc)
+        sc["params"]["fail_exc"] = "memory" if rng.random() < 0.3 else "runtime"
 
     # ---------------------------------------------------------------- helpers
     def fresh(self, sc, P):
@@ -253,6 +255,7 @@ class C15(Machine):
             o1["stack"] = val
         elif kind == "solver":
             o1["fail_at"] = val
+            o1["fail_exc"] = sc["params"].get("fail_exc", "runtime")
             site = f'{O["op"]}/solver:{kinds[val - 1] if val - 1 < len(kinds) else "?"}'
         elif kind == "max_motifs":
             knob = ("max_motifs_per_node", val)
@@ -287,7 +290,7 @@ class C15(Machine):
         if knob:
             A.apply({"op": "set_knob", "name": knob[0], "value": DEFAULT_CONFIG[knob[0]]})
         if O["op"] in RESUMABLE + QUERIES:
-            o2 = {k: v for k, v in O.items() if k != "fail_at"}
+            o2 = {k: v for k, v in O.items() if k not in ("fail_at", "fail_exc")}
             out2 = A.apply(o2)
             if out2["cls"] == "budget_exceeded":
                 return [], A
